@@ -78,6 +78,12 @@ CHECKS["C04"] = dict(
     note="Quick tier samples 30 edges per request (14 for lens wrappers) plus the extremes; thorough runs the complete edge cover.",
     ref="5 C04")
 
+CHECKS["C05"] = dict(
+    technique="TLA+ state-merging spec Symmetry.tla (in-plane symmetry group: lattice shifts, Z_24 rotations, mirror; VIEW = group element in normal form) model-checked by TLC; edge cover applied step by step to concrete generic configurations for every theory",
+    text="TLC enumerates all paths of length <= 2-3 over three lattice shifts, five rotations of Z_24 (15..255 degrees) and the mirror, checking the composition laws of the normal form; the edge cover is applied to eleven generic configurations (Mie sphere, Mie superposition incl. a layered sphere, Multisphere trimer, T-matrix spheroid and cylinder [shifts and mirror only: x polarisation], MieLens above and below focus, AberratedMieLens, Lens(Mie) above and below focus, Lens(Multisphere) dimer) by transforming scatterer positions/axes, polarisation angle and detector points step by step; hologram values at corresponding points must be equal and field vectors must transform with the element; theory objects are reused across the calls of a configuration (call history). Whole-pixel shifts on grid detectors and the two-axis symmetry of a sphere's hologram under x/y polarisation are checked for Mie, MieLens and Lens(Mie).",
+    note="Rotations are exact multiples of 15 degrees applied to a configuration with seeded generic angles; quick tier samples 24 edges per configuration (6 for lens wrappers).",
+    ref="5 C05")
+
 NOT_APPLICABLE = []
 
 
